@@ -484,6 +484,57 @@ fn deep_nest(n: usize) -> Vec<u8> {
     v
 }
 
+/// a close whose error info holds `pad` empty lists and then a list nested `n` deep
+fn padded_nest(pad: usize, n: usize) -> Vec<u8> {
+    // close(error(condition, description = null, info = { "k": [ list0 x pad, nested chain ] }))
+    let mut chain = vec![];
+    for k in 0..n {
+        chain.push(0xd0);
+        chain.extend_from_slice(&(((n - k - 1) * 9 + 4 + 1) as u32).to_be_bytes());
+        chain.extend_from_slice(&1u32.to_be_bytes());
+    }
+    chain.push(0x40);
+    let mut list = vec![0xd0];
+    list.extend_from_slice(&((4 + pad + chain.len()) as u32).to_be_bytes());
+    list.extend_from_slice(&((pad + 1) as u32).to_be_bytes());
+    list.extend(std::iter::repeat(0x45).take(pad));
+    list.extend_from_slice(&chain);
+    let mut map = vec![0xd1];
+    map.extend_from_slice(&((4 + 3 + list.len()) as u32).to_be_bytes());
+    map.extend_from_slice(&2u32.to_be_bytes());
+    map.extend_from_slice(&[0xa3, 0x01, b'k']);
+    map.extend_from_slice(&list);
+    let cond = b"amqp:internal-error";
+    let mut err_fields = vec![0xa3, cond.len() as u8];
+    err_fields.extend_from_slice(cond);
+    err_fields.push(0x40);
+    err_fields.extend_from_slice(&map);
+    let mut err = vec![0x00, 0x53, 0x1d, 0xd0];
+    err.extend_from_slice(&((4 + err_fields.len()) as u32).to_be_bytes());
+    err.extend_from_slice(&3u32.to_be_bytes());
+    err.extend_from_slice(&err_fields);
+    let mut v = vec![0x00, 0x53, 0x18, 0xd0];
+    v.extend_from_slice(&((4 + err.len()) as u32).to_be_bytes());
+    v.extend_from_slice(&1u32.to_be_bytes());
+    v.extend_from_slice(&err);
+    v
+}
+
+/// `run` on a thread of its own with a real-time limit: an endpoint that spins without yielding (a loop
+/// with no await point) blocks its runtime thread for ever and no virtual-time timeout can fire; the
+/// thread is then abandoned and the item reported
+pub fn run_guarded(item: &Item) -> Option<Observed> {
+    let (tx, rx) = std::sync::mpsc::channel();
+    let it = item.clone();
+    let spawned = std::thread::Builder::new().stack_size(32 << 20).spawn(move || {
+        let _ = tx.send(run(&it));
+    });
+    if spawned.is_err() {
+        return Some(run(item));
+    }
+    rx.recv_timeout(Duration::from_secs(40)).ok()
+}
+
 pub fn gen_item(rng: &mut Rng) -> Item {
     match rng.below(22) {
         0 => {
@@ -510,7 +561,7 @@ pub fn gen_item(rng: &mut Rng) -> Item {
         3 => Item::Frame { doff: *rng.pick(&[0u8, 1, 3, 4, 255]), ftype: 0, channel: 0, body: vec![] },
         4 => Item::Frame { doff: 2, ftype: *rng.pick(&[1u8, 2, 127, 255]), channel: 0, body: vec![0x00, 0x53, 0x13, 0x45] },
         5 => Item::Frame { doff: 2, ftype: 0, channel: 0, body: (0..rng.range(1, 40)).map(|_| rng.next() as u8).collect() },
-        6 => Item::Frame { doff: 2, ftype: 0, channel: 0, body: deep_nest(*rng.pick(&[10usize, 200, 5000])) },
+        6 => Item::Frame { doff: 2, ftype: 0, channel: 0, body: if rng.chance(1, 2) { deep_nest(*rng.pick(&[10usize, 200, 5000])) } else { padded_nest(*rng.pick(&[3usize, 200, 2000]), *rng.pick(&[100usize, 130, 300, 2000])) } },
         7 => {
             // a list32 claiming 4 GiB of content / 2^32-1 elements
             let mut body = vec![0x00, 0x53, 0x14, 0xd0];
@@ -573,7 +624,13 @@ pub fn main(opts: &Opts) {
         }
         if let Some(item) = j.get("item").and_then(Item::from_json) {
             std::env::set_var("VERIF_TRACE", "1");
-            let obs = run(&item);
+            let obs = match run_guarded(&item) {
+                Some(o) => o,
+                None => {
+                    println!("REPLAY: property violated [endpoint-spins-or-blocks]: the scenario did not come back within 40 s of real time");
+                    std::process::exit(1);
+                }
+            };
             for l in &obs.trace {
                 println!("{}", l);
             }
@@ -608,9 +665,21 @@ pub fn main(opts: &Opts) {
     }
     report.count_n("corpus_cases", corpus.len() as u64);
     let n = if opts.thorough() { 6000 } else { 500 };
+    let mut stuck = 0;
     for k in 0..(n + corpus.len() as u64) {
         let item = if (k as usize) < corpus.len() { corpus[k as usize].clone() } else { gen_item(&mut rng) };
-        let obs = run(&item);
+        let obs = match run_guarded(&item) {
+            Some(o) => o,
+            None => {
+                report.evaluations += 1;
+                stuck += 1;
+                report.finding(Finding { kind: "violation", key: "endpoint-spins-or-blocks".into(), description: format!("after {:?} the endpoint's own calls (close / end / detach, sends) did not come back within 40 s of real time: a task is busy without yielding", item), replay: json!({"property": "C15", "module": "hostile", "item": item.to_json()}) });
+                if stuck >= 2 {
+                    break;
+                }
+                continue;
+            }
+        };
         report.evaluations += 1;
         if item != Item::Nothing {
             report.nontrivial_case(fnv(&item.to_json().to_string()));
@@ -623,10 +692,14 @@ pub fn main(opts: &Opts) {
             report.finding(Finding { kind: "violation", key, description: desc, replay: json!({"property": "C15", "module": "hostile", "item": item.to_json(), "ops": format!("{:?}", obs.ops)}) });
         }
     }
+    // frame bodies nested beyond any stack are decoded in a child process (the exit status is the verdict)
+    crate::codec::deep_nesting_probes(&mut report, "C15");
     flow_bursts(&mut rng, opts, &mut report);
     header_correspondence(&mut rng, opts, &mut report);
     report.write(&opts.report);
     println!("hostile: {} cases, {} non-trivial, {} findings", report.evaluations, report.nontrivial.len(), report.findings.len());
+    // abandoned threads, if any, end with the process
+    std::process::exit(0);
 }
 
 /// a peer that floods an endpoint whose queues are small: it keeps its window shut while the client
